@@ -80,7 +80,7 @@ def check(ctx: Ctx) -> None:
             ok = False
         ctx.ob("C06.check", text, ok, f"is_valid_expression(Muss {text}) = {res!r}; structurally the expression is "
                f"{'valid' if want_valid else 'invalid'}", file=vfile, function="is_valid_expression")
-        if has_keys and want_valid and ok:
+        if has_keys and want_valid and ok and n_eval > 0:  # (a check that decides structurally, without evaluating, is exempt)
             n_rc = len({k for k in refsem.keys_of(e) if refsem.key_kind(k) == "rc"})
             n_fc = len({k for k in refsem.keys_of(e) if refsem.key_kind(k) == "fc"})
             ctx.ob("C06.check", f"coverage:{text}", n_eval == 3 ** n_rc * 2 ** n_fc,
